@@ -191,6 +191,15 @@ def o_C03(ctx):
                 n = r["events"][0][1]
                 if int(first(t, "n")) != n or int(first(t, "empty")) != (1 if n == 0 else 0):
                     v.append(([c.id], "%s count/emptiness differ from the wire value %d" % (c.entry, n)))
+            if c.entry == "witness":
+                tot = [e[1] for e in r["events"] if e[0] == 7]
+                if tot and first(t, "empty") is not None and int(first(t, "empty")) != (1 if tot[0] == 0 else 0):
+                    v.append(([c.id], "witness: is_empty() = %s for a witness of %d elements" % (first(t, "empty"), tot[0])))
+            if c.entry == "witnesses":
+                tot = [e[1] for e in r["events"] if e[0] == 7]
+                exp = 1 if all(x == 0 for x in tot) else 0
+                if first(t, "allempty") is not None and int(first(t, "allempty")) != exp:
+                    v.append(([c.id], "witnesses(%d): all_empty() = %s, the %d witnesses have %s elements" % (c.param, first(t, "allempty"), len(tot), tot[:8])))
             if c.entry == "block":
                 n = r["events"][1][1]
                 if int(first(t, "total")) != n:
